@@ -142,6 +142,7 @@ def bounded(tier, seed):
         for step in range(rounds):
             if len(violations) >= 5:
                 break
+            sim.WIRE = (step % 2 == 1)      # every other request as bytes through the real parser (where the request has a wire form)
             name = rng.choice(['A', 'B'])
             n = len(model[name])
             idx = rng.choice([0, 1, n - 1, n, n + 1, rng.randint(0, n + 1)])
@@ -218,6 +219,7 @@ def bounded(tier, seed):
             if not ok:
                 violations.append(dict(key='history %s step %d: %s %s[%d] x%d' % (ttype, step, kind, name, idx, elm),
                                        observed='status %r tags %r' % (sim.status_of(d), snapshot(model)), required=want))
+    sim.WIRE = False
     # Set Attribute Single with every byte count around the exact one (all-or-nothing, no growth/shrink)
     import struct
     from .C03 import numpath, FMT
@@ -292,7 +294,7 @@ def bounded(tier, seed):
             violations.append(dict(key='wire: %s of A[4294967295] with a byte offset' % svc, observed=repr(obs)[:300],
                                    required='refused with a CIP error status, nothing read or written, the tag keeps [1, 2, 3, 4]'))
     return dict(evaluations=ev, distinct_nontrivial=len(distinct), distinct_keys=distinct_keys(distinct),
-                rule='seeded request histories per tag type on two array tags: index in {0,1,len-1,len,len+1,random}, count in '
+                rule='seeded request histories per tag type on two array tags (every other request as bytes through the real parser where it has a wire form): index in {0,1,len-1,len,len+1,random}, count in '
                      '{0,1,2,rest,rest+1,len,len+1}, every request type incl. widest values into narrower tags; after each request all '
                      'tag contents are compared with the array model and re-read after every acknowledged write; '
                      'distinct = distinct (service, types, index-len, count-len, data-count, offset) classes',
